@@ -10,7 +10,19 @@ import (
 	"fmt"
 	"os"
 	"sync"
+	"time"
 )
+
+func nativeTimeout() time.Duration {
+	if v := os.Getenv("ZZVERIF_TIMEOUT_MS"); v != "" {
+		var ms int
+		fmt.Sscanf(v, "%d", &ms)
+		if ms > 0 {
+			return time.Duration(ms) * time.Millisecond
+		}
+	}
+	return 8 * time.Second
+}
 
 type replayFile struct {
 	Inputs map[string][]uint64 `json:"inputs"`
@@ -212,10 +224,18 @@ func Observations() map[string]string {
 
 // RunNative runs a harness natively and reports the outcome on stdout in one line:
 // ZZVERIF-RESULT: {"outcome":"ok|fail|panic|diverged", ...}
-func RunNative(name string, h func()) (outcome string) {
+func RunNative(name string, h func()) (outcome string) { return runNative(name, h, true) }
+
+var curSchedule []Step
+
+func runNative(name string, h func(), report bool) (outcome string) {
 	Reset()
 	var panicMsg string
-	func() {
+	startSchedule(curSchedule)
+	done := make(chan struct{})
+	timedOut := false
+	go func() {
+		defer close(done)
 		defer func() {
 			if r := recover(); r != nil {
 				if _, ok := r.(divergence); ok {
@@ -224,8 +244,23 @@ func RunNative(name string, h func()) (outcome string) {
 				panicMsg = fmt.Sprint(r)
 			}
 		}()
+		// the harness runs as logical goroutine 0
+		ctl.mu.Lock()
+		if ctl.gids != nil {
+			for k := range ctl.gids {
+				delete(ctl.gids, k)
+			}
+			ctl.gids[goid()] = 0
+		}
+		ctl.mu.Unlock()
 		h()
 	}()
+	select {
+	case <-done:
+	case <-time.After(nativeTimeout()):
+		timedOut = true
+	}
+	schedDiv, pos, total := stopSchedule()
 	outcome = "ok"
 	switch {
 	case len(Diverged()) > 0:
@@ -234,8 +269,14 @@ func RunNative(name string, h func()) (outcome string) {
 		outcome = "panic"
 	case len(Failures()) > 0:
 		outcome = "fail"
+	case timedOut:
+		outcome = "timeout"
 	}
-	res := map[string]interface{}{"harness": name, "outcome": outcome, "failures": Failures(), "panic": panicMsg, "observed": Observations()}
+	if !report && outcome != "fail" && outcome != "panic" {
+		return outcome
+	}
+	res := map[string]interface{}{"harness": name, "outcome": outcome, "failures": Failures(), "panic": panicMsg, "observed": Observations(),
+		"schedule_diverged": schedDiv, "schedule_pos": pos, "schedule_len": total}
 	b, _ := json.Marshal(res)
 	fmt.Println("ZZVERIF-RESULT: " + string(b))
 	return outcome
@@ -255,9 +296,11 @@ func StrEq(a, b string) bool { return a == b }
 
 // Case is one native replay case.
 type Case struct {
-	ID      string              `json:"id"`
-	Harness string              `json:"harness"`
-	Inputs  map[string][]uint64 `json:"inputs"`
+	ID       string              `json:"id"`
+	Harness  string              `json:"harness"`
+	Inputs   map[string][]uint64 `json:"inputs"`
+	Schedule []Step              `json:"schedule,omitempty"`
+	Attempts int                 `json:"attempts,omitempty"`
 }
 
 // RunBatch runs the cases listed in the file named by $ZZVERIF_CASES against the given harnesses.
@@ -288,7 +331,18 @@ func RunBatch(harnesses map[string]func()) {
 		}
 		mu.Unlock()
 		fmt.Println("ZZVERIF-BEGIN: " + c.ID)
-		RunNative(c.ID, h)
+		curSchedule = c.Schedule
+		attempts := c.Attempts
+		if attempts < 1 {
+			attempts = 1
+		}
+		for a := 0; a < attempts; a++ {
+			last := a == attempts-1
+			if out := runNative(c.ID, h, last); out == "fail" || out == "panic" {
+				break
+			}
+		}
+		curSchedule = nil
 	}
 }
 
